@@ -222,6 +222,8 @@ pub struct Shadow {
     pub leak_extra: &'static str,
     /// threads that are running their thread-local destructors
     pub tls_phase: Vec<bool>,
+    /// participant of each thread while it runs its program (0 = unknown / winding down)
+    pub plocal: Vec<usize>,
     /// per thread: lowest / highest stack address at which a payload destructor ran
     pub dtor_stack: Vec<(usize, usize)>,
     /// raise signal 7 when a cascade reclaims a node at this depth (0 = off)
@@ -290,6 +292,7 @@ impl Shadow {
             weak_extra: "",
             leak_extra: "",
             tls_phase: Vec::new(),
+            plocal: Vec::new(),
             dtor_stack: Vec::new(),
             signal_depth: 0,
             debug_watch: std::env::var("VERIF_WATCH").ok().and_then(|s| s.parse().ok()),
@@ -791,6 +794,27 @@ impl Monitor for RcMonitor {
         }
         if let Some(det) = bad {
             sh.soft("C12", "count-word-mismatch", det);
+        }
+        // C16 across threads: with every thread between two operations, each participant is pinned
+        // exactly if the model says its thread holds a guard (whoever ran last must not have
+        // changed anybody else's state)
+        for t in 0..sh.plocal.len().min(sh.ucs.len()) {
+            let l = sh.plocal[t];
+            if l == 0 || sh.tls_phase.get(t).copied().unwrap_or(false) {
+                continue;
+            }
+            let u = &sh.ucs[t];
+            let live = u.guards.len() - if u.suspended { 1 } else { 0 };
+            let p = unsafe { circ::verif::peek_local(l) };
+            let pinned = p.epoch_word & 1 == 1;
+            if pinned != (live > 0) || p.guard_count != live {
+                let det = format!(
+                    "at a point where every thread is between two operations (t{} ran last), t{} has {} live guard(s) but its participant shows pinned={} guard_count={}",
+                    _tid, t, live, pinned, p.guard_count
+                );
+                sh.soft("C16", "pin-state-mismatch/seen-from-another-thread", det);
+                break;
+            }
         }
     }
 
